@@ -246,12 +246,13 @@ def abstract_line(r, chrom):
     }
 
 
-def random_record(rnd):
-    L = rnd.randint(2, 8)
-    ns = rnd.randint(0, min(4, L))
+def random_record(rnd, wide=False):
+    """wide: a record listing 130 - 300 haplotypes over 8 - 9 SNVs (allele numbers beyond a signed / unsigned byte)"""
+    L = rnd.randint(2, 8) if not wide else rnd.randint(9, 11)
+    ns = rnd.randint(0, min(4, L)) if not wide else rnd.randint(8, 9)
     snvpos = sorted(rnd.sample(range(1, L + 1), ns))
     ref = [rnd.choice("ACGT") for _ in range(L)]
-    k = rnd.randint(0, 5) if ns else 0
+    k = (rnd.randint(0, 5) if ns else 0) if not wide else rnd.choice([130, 200, 260, 300])
     haps = [ref]
     for _ in range(k):
         for _try in range(20):
@@ -267,7 +268,8 @@ def random_record(rnd):
     gts = []
     for _ in range(nsamp):
         P = rnd.choice([1, 2, 2, 4, 4, 6])
-        gts.append([rnd.choice([-1] + list(range(k + 1)) * 2) for _ in range(P)])
+        gts.append([rnd.choice([-1] + list(range(k + 1)) * 2) for _ in range(P)] if not wide else
+                   [rnd.choice([-1, 0, 1, 126, 127, 128, 129, k - 1, k, rnd.randint(0, k), rnd.randint(120, k)]) for _ in range(P)])
     kind = rnd.choice(["none", "ACP", "AFP"])
     acp = []
     if kind != "none":
@@ -519,6 +521,9 @@ def main():
     for i in range(nrand):
         rec = random_record(rnd)
         rtext.append(("random:%d" % i, render(rec, rid="X%d" % i if i % 2 else None)))
+    for i in range(6 if tier == "quick" else 40):
+        rec = random_record(rnd, wide=True)
+        rtext.append(("random-wide:%d" % i, render(rec, rid="W%d" % i if i % 2 else None)))
 
     ph.mark("atomize-traces")
     # atomize record by record (so that one rejected record does not hide the others) and whole files
